@@ -206,8 +206,8 @@ package cache
 // (mirrored in the ghosts optTTL/optA/optB so that postconditions can name them): every combination of
 // WithTTL / WithMustNotExist / WithKeepTTL (resp. WithRemoveAfterGet / WithUpdateTTL) is covered.
 //@ func funcval fn
-//@   trusted option closure: sets the option struct to arbitrary values (ttl below 2^62)
-//@   ensures (forall s *setOption :: { s.ttl } s.ttl < 4611686018427387904) && (forall g *getOption :: { g.ttl } g.ttl < 4611686018427387904)
+//@   trusted option closure: sets the option struct to arbitrary values (|ttl| below 9*10^9 seconds, about 285 years, so that ttl seconds fit a time.Duration)
+//@   ensures (forall s *setOption :: { s.ttl } s.ttl < 9000000000 && s.ttl > -9000000000) && (forall g *getOption :: { g.ttl } g.ttl < 9000000000 && g.ttl > -9000000000)
 //@   modifies setOption.ttl, setOption.mustNotExist, setOption.keepTTL, getOption.ttl, getOption.removeAfterGet, getOption.updateTTL
 //
 //@ pure node(e *list.Element) *ttlNode = *ttlNode(e.Value)
@@ -325,7 +325,7 @@ package cache
 //@   modifies rdsOp, rdsKey, rdsExp, region($alloc)
 //@ func ttlRdsCache.Set
 //@   property C05
-//@   requires t != nil && ErrTTLKeyExists != nil
+//@   requires t != nil && ErrTTLKeyExists != nil && t.ttl < 9000000000 && t.ttl > -9000000000
 //@   aftercall SetNX usedTTL = o.ttl
 //@   aftercall Set usedTTL = o.ttl
 //@   aftercall Set usedKeep = o.keepTTL
@@ -334,17 +334,17 @@ package cache
 //@   ensures #keepttl rdsOp == 2 && usedKeep ==> rdsExp == redis.KeepTTL
 //@   modifies rdsOp, rdsKey, rdsExp, usedTTL, usedKeep, region($alloc), setOption.ttl, setOption.mustNotExist, setOption.keepTTL, getOption.ttl, getOption.removeAfterGet, getOption.updateTTL
 //@   loop 1
-//@     invariant o != nil && isfresh(o)
+//@     invariant o != nil && isfresh(o) && o.ttl < 9000000000 && o.ttl > -9000000000
 //@ func ttlRdsCache.Get
 //@   property C05
-//@   requires t != nil && ErrTTLKeyNotFound != nil && redis.Nil != nil
+//@   requires t != nil && ErrTTLKeyNotFound != nil && t.ttl < 9000000000 && t.ttl > -9000000000
 //@   aftercall Expire usedTTL = o.ttl
 //@   ensures #key rdsKey == strcat(t.prefix, key)
 //@   ensures #seconds rdsOp == 3 ==> rdsExp == time.Duration(usedTTL) * 1000000000
 //@   ensures #notfound result1 != nil ==> result0 == nil
 //@   modifies rdsOp, rdsKey, rdsExp, usedTTL, region($alloc), setOption.ttl, setOption.mustNotExist, setOption.keepTTL, getOption.ttl, getOption.removeAfterGet, getOption.updateTTL
 //@   loop 1
-//@     invariant o != nil && isfresh(o)
+//@     invariant o != nil && isfresh(o) && o.ttl < 9000000000 && o.ttl > -9000000000
 //@ func ttlRdsCache.Remove
 //@   property C05
 //@   requires t != nil
